@@ -1219,7 +1219,7 @@ class ManifestRecursiveLoader:
                 else:
                     # skip top-level Manifest, we obviously can't have
                     # an entry for it
-                    if fpath in manifest_filenames:
+                    if fpath == self.top_level_manifest_filename:
                         continue
                     if fpath in new_manifests:
                         ftype = 'MANIFEST'
